@@ -235,8 +235,7 @@ def file_level(ctx, ev):
     fi = repo.func(CC, "CacheFromEnvelope.fill_cache_from_envelope")
     fq = ctx.fq(fi)
     outs = [o for o in ev.outcomes(fi) if o.kind == "return"]
-    if len(outs) != 1:
-        raise AnalysisError(f"{fq}: expected one outcome")
+    outs = generic.sole_outcome(ctx, outs, f"{fq}: expected one outcome")
     o = outs[0]
     calls = [e.args[0] for e in all_effects(o.effects) if isinstance(e, App) and e.op == "eff:call" and isinstance(e.args[0], App)
              and e.args[0].op == "call" and isinstance(e.args[0].args[0], Ref)
@@ -266,8 +265,7 @@ def single_extract(ctx, ev):
     fi = repo.func(PX, "main")
     fq = ctx.fq(fi)
     outs = [o for o in ev.outcomes(fi) if o.kind == "return"]
-    if len(outs) != 1:
-        raise AnalysisError(f"{fq}: expected one outcome")
+    outs = generic.sole_outcome(ctx, outs, f"{fq}: expected one outcome")
     o = outs[0]
     eff = [strip_sites(e) for e in o.effects]
     L = strip_sites(App("cborload", (App("open", (P("input_envelope"), Const("rb"))),)))
